@@ -695,8 +695,28 @@ func (t *tr2) call(x *ast.CallExpr, bs *[]bind) string {
 			v := t.expr(x.Args[0], bs)
 			t.assign(tgt, v, bs)
 			return "tt"
+		case m == "CompareAndSwap" && len(x.Args) == 2:
+			cur := t.expr(tgt, bs)
+			o := t.expr(x.Args[0], bs)
+			nw := t.expr(x.Args[1], bs)
+			tmp := t.freshTmp()
+			*bs = append(*bs, bind{let: true, pat: tmp, rhs: "(Z.eqb " + cur + " " + o + ")"})
+			t.assign(tgt, "(if "+tmp+" then "+nw+" else "+cur+")", bs)
+			return tmp
 		}
-		t.fail(x, "sync/atomic method %s outside the subset (Load, Add, Store)", m)
+		t.fail(x, "sync/atomic method %s outside the subset (Load, Add, Store, CompareAndSwap)", m)
+		return "0"
+	}
+	if tgt, m, ok := t.atomicPtrCall(x); ok {
+		switch {
+		case m == "Load" && len(x.Args) == 0:
+			return t.expr(tgt, bs)
+		case m == "Store" && len(x.Args) == 1:
+			v := t.expr(x.Args[0], bs)
+			t.assign(tgt, v, bs)
+			return "tt"
+		}
+		t.fail(x, "sync/atomic.Pointer method %s outside the subset (Load, Store)", m)
 		return "0"
 	}
 	// math.Float32bits / Float64bits / Float32frombits / Float64frombits: identities on the bit pattern
@@ -1092,7 +1112,18 @@ func (t *tr2) errorf(x *ast.CallExpr, bs *[]bind) string {
 
 func (t *tr2) builtin(name string, x *ast.CallExpr, bs *[]bind) string {
 	switch name {
+	case "cap":
+		if len(x.Args) == 1 {
+			if _, ok := chanElem(t.info.TypeOf(x.Args[0])); ok {
+				return "(ch_cap " + t.expr(x.Args[0], bs) + ")"
+			}
+		}
 	case "len":
+		if len(x.Args) == 1 {
+			if _, ok := chanElem(t.info.TypeOf(x.Args[0])); ok {
+				return "(ch_len " + t.expr(x.Args[0], bs) + ")"
+			}
+		}
 		if len(x.Args) == 1 && isBytes(t.info.TypeOf(x.Args[0])) {
 			return "(go_len " + t.expr(x.Args[0], bs) + ")"
 		}
